@@ -19,7 +19,7 @@ RULE = ('case = (1..3 memories with random images, incl. one mapped near 2^32 an
         'per history. distinct_nontrivial = distinct (history hash, fault script, k, port-4 wire hash).')
 ASSUMPTIONS = ['device memory protocol as in the firmware: read reply <=24 data bytes, write 5-byte header',
                'duplicates are drained before a conflicting request is issued (a stale reply may legitimately carry old data)']
-REQUIRED = ['mon.requests_issued_while_another_thread_handles_the_loss_of_the_link', 'mon.queued_write_pairs_with_the_second_write_below_the_first', 'mon.deck_reads_failing_without_a_failure_callback', 'mon.writes_with_a_progress_callback', 'mon.empty_writes_with_a_progress_callback', 'mon.tester_reads', 'mon.tester_writes', 'mon.tester_writes_crossing_a_256_byte_boundary_with_a_remainder', 'mon.tester_reads_over_a_corrupted_byte',
+REQUIRED = ['mon.refused_writes_tried_again_from_the_failure_callback', 'mon.requests_issued_while_another_thread_handles_the_loss_of_the_link', 'mon.queued_write_pairs_with_the_second_write_below_the_first', 'mon.deck_reads_failing_without_a_failure_callback', 'mon.writes_with_a_progress_callback', 'mon.empty_writes_with_a_progress_callback', 'mon.tester_reads', 'mon.tester_writes', 'mon.tester_writes_crossing_a_256_byte_boundary_with_a_remainder', 'mon.tester_reads_over_a_corrupted_byte',
             'mon.reads_completed', 'mon.writes_completed', 'mon.failed_notifications', 'mon.images_compared',
             'mon.chunk_requests', 'mon.probe_after_history', 'mon.link_drop_runs', 'mon.error_status_runs',
             'mon.requests_issued_while_no_link_is_open', 'mon.deck_memory_requests_issued_from_a_completion_callback',
@@ -808,7 +808,9 @@ def run_dupq(desc, ctx):
     drnd = random.Random(desc['seed'] ^ 0xD1)
 
     def pol(sp, n, h, d):
-        if (h >> 4) & 0xF == 4 and h & 3 == 2:
+        if (h >> 4) & 0xF == 4 and h & 3 == 2 and not (len(d) > 5 and d[5] != 0):
+            # (a refusal arrives once: the application may try the same address again at once, and a copy of the refusal
+            # could then not be told from the answer to the new attempt by any implementation)
             return [(0.0, h, d)] + [(drnd.choice((0.0, 0.0005, 0.0015, 0.003)), h, d) for _ in range(drnd.choice((1, 1, 2)))]
         return [(0.0, h, d)]
     rounds = []
@@ -827,8 +829,10 @@ def run_dupq(desc, ctx):
                 a1, a2 = a2, a1       # the second write lies below the first
             if not set(chunks(a1, l1)) & set(chunks(a2, l2)) and (a1 + l1 <= a2 or a2 + l2 <= a1):
                 break
-        refuse2 = rnd.random() < 0.35
-        rounds.append((a1, bytes(rnd.getrandbits(8) for _ in range(l1)), a2, bytes(rnd.getrandbits(8) for _ in range(l2)), refuse2))
+        refuse2 = rnd.random() < 0.45
+        # (a refused write may be tried again by the application from its failure callback: 'retry')
+        rounds.append((a1, bytes(rnd.getrandbits(8) for _ in range(l1)), a2, bytes(rnd.getrandbits(8) for _ in range(l2)),
+                       ('retry' if rnd.random() < 0.5 else True) if refuse2 else False))
     ob = {'problems': [], 'rounds': []}
 
     def fn(s):
@@ -845,22 +849,31 @@ def run_dupq(desc, ctx):
         mem = cf.mem.get_mems(MemoryElement.TYPE_MEMORY_TESTER)[0]
         comps = []
         cf.mem.mem_write_cb.add_callback(lambda m, a: comps.append(('ok', a, bytes(dev.mems[0]['data']), spec.seq)))
-        cf.mem.mem_write_failed_cb.add_callback(lambda m, a: comps.append(('fail', a, None, spec.seq)))
+        retry = {'data': None}
+
+        def on_fail(m, a):
+            comps.append(('fail', a, None, spec.seq))
+            if retry['data'] is not None:
+                d_, retry['data'] = retry['data'], None
+                cf.mem.write(m, a, d_)
+        cf.mem.mem_write_failed_cb.add_callback(on_fail)
         spec.reply_policy = pol
         for (a1, d1, a2, d2, refuse2) in rounds:
             del comps[:]
             refused = {'n': 0}
+            retry['data'] = d2 if refuse2 == 'retry' else None
             if refuse2:
                 first2 = a2
+                once = refuse2 == 'retry'
                 dev.hooks['mem_status'] = lambda kind, mid, addr, k: ((refused.__setitem__('n', refused['n'] + 1) or simcf.EIO)
-                                                                     if (kind == 'write' and addr == first2) else None)
+                                                                     if (kind == 'write' and addr == first2 and not (once and refused['n'] >= 1)) else None)
             else:
                 dev.hooks.pop('mem_status', None)
             t0, e0 = len(spec.tx), len(spec.rx)
             cf.mem.write(mem, a1, d1)
             cf.mem.write(mem, a2, d2)
             g = 0
-            while len(comps) < 2 and g < 4000:
+            while len(comps) < (3 if refuse2 == 'retry' else 2) and g < 4000:
                 s.sleep(0.001)
                 g += 1
             s.sleep(0.02)         # every copy has arrived
@@ -886,7 +899,9 @@ def run_dupq(desc, ctx):
         if a2 < a1:
             ctx.count('mon.queued_write_pairs_with_the_second_write_below_the_first')
         info = {'first': (a1, len(d1)), 'second': (a2, len(d2)), 'device_refuses_the_second': refuse2, 'completions': [c[:2] for c in r['comps']]}
-        want = [('ok', a1), ('fail' if refuse2 else 'ok', a2)]
+        want = [('ok', a1), ('fail' if refuse2 else 'ok', a2)] + ([('ok', a2)] if refuse2 == 'retry' else [])
+        if refuse2 == 'retry':
+            ctx.count('mon.refused_writes_tried_again_from_the_failure_callback')
         if [c[:2] for c in r['comps']] != want or r['left']:
             ctx.violate('mem:dupq:completions-differ-from-what-the-device-did', dict(info, expected=want, left=r['left']), replay=rp)
             continue
